@@ -135,29 +135,50 @@ structure RState (m : Machine) where
   bij : Bij := []
   nev : Nat := 0
   cov : List String := []
+  /-- other model states that also explain the trace so far (the model may be nondeterministic from the trace's
+      point of view: two branches with the same first observable); the replay diverges only when none is left -/
+  alts : List (m.St × Bij × List String) := []
 
 def addCov (cov : List String) (c : String) : List String := if cov.contains c then cov else c :: cov
 
+/-- all successors of one alternative that explain the event and keep the executable invariant -/
+def succsOf (m : Machine) (st : m.St) (bij : Bij) (cov : List String) (e : Event) :
+    List (m.St × Bij × List String) × Option String :=
+  match m.actor st e.actor with
+  | none => ([], some s!"unknown actor in: {e.str}")
+  | some t =>
+    let cs := m.cands st t e
+    let ok := cs.filterMap fun (l, s', nm) =>
+      match matchLabel bij l e with
+      | some bj => (match m.inv s' with
+                    | some _ => none
+                    | none => some (s', bj, addCov cov nm))
+      | none => none
+    if ok.isEmpty then
+      let broken := cs.filterMap fun (l, s', _) =>
+        match matchLabel bij l e with
+        | some _ => m.inv s'
+        | none => none
+      match broken with
+      | msg :: _ => ([], some s!"model invariant broken after {e.str}: {msg}")
+      | [] =>
+        let exp := ", ".intercalate (cs.map fun c => c.1.str)
+        ([], some s!"actor {e.actor} at {m.where_ st t}: model expects [{exp}], trace has: {e.str}")
+    else (ok, none)
+
 def replayEvent (m : Machine) (rs : RState m) (e : Event) : Except String (RState m) :=
   if m.skip e then .ok { rs with nev := rs.nev + 1 } else
-  match m.actor rs.st e.actor with
-  | none => .error s!"unknown actor in: {e.str}"
-  | some t =>
-    let cs := m.cands rs.st t e
-    let rec go : List (Label × m.St × String) → Option (m.St × Bij × String)
-      | [] => none
-      | (l, s', nm) :: r =>
-        match matchLabel rs.bij l e with
-        | some bj => some (s', bj, nm)
-        | none => go r
-    match go cs with
-    | none =>
-      let exp := ", ".intercalate (cs.map fun c => c.1.str)
-      .error s!"actor {e.actor} at {m.where_ rs.st t}: model expects [{exp}], trace has: {e.str}"
-    | some (s', bj, nm) =>
-      match m.inv s' with
-      | some msg => .error s!"model invariant broken after {e.str}: {msg}"
-      | none => .ok { st := s', bij := bj, nev := rs.nev + 1, cov := addCov rs.cov nm }
+  let (p, perr) := succsOf m rs.st rs.bij rs.cov e
+  let others := rs.alts.flatMap fun (st, bj, cov) => (succsOf m st bj cov e).1
+  match (p ++ others).take 24 with
+  | [] => .error (perr.getD s!"no alternative explains: {e.str}")
+  | (s', bj, cov) :: rest => .ok { st := s', bij := bj, nev := rs.nev + 1, cov := cov, alts := rest }
+
+/-- end-of-trace check: some surviving alternative must satisfy it -/
+def RState.endCheck {m : Machine} (rs : RState m) : Option String :=
+  match m.atEnd rs.st with
+  | none => none
+  | some msg => if rs.alts.any (fun a => (m.atEnd a.1).isNone) then none else some msg
 
 def parseHeader (ws : List String) : List (String × String) :=
   ws.filterMap fun w => match w.splitOn "=" with
